@@ -12,8 +12,14 @@ def vocabulary():
     helper the rules have no name for and is analysed inlined into its callers"""
     import os
     p = os.path.join(os.path.dirname(os.path.abspath(__file__)), "tables", "vocab.txt")
+    out = {}
     with open(p) as fh:
-        return {l.strip() for l in fh if l.strip()}
+        for l in fh:
+            l = l.rstrip("\n")
+            if l.strip():
+                path, _, sig = l.partition("\t")
+                out[path] = sig
+    return out
 
 
 def program(cfg=None):
@@ -21,7 +27,7 @@ def program(cfg=None):
     if cfg not in _cache:
         d, info = extract.extract(cfg)
         prog = ir.Prog(d)
-        info = dict(info, inlined_helpers=prog.inline_helpers(vocabulary()))
+        info = dict(info, inlined_helpers=prog.inline_helpers(vocabulary()), renamed=getattr(prog, "renamed", {}))
         _cache[cfg] = (prog, info)
     return _cache[cfg]
 
